@@ -425,6 +425,11 @@ func registerHarness(e *Engine) {
 		c.St.Ghost["sock:"+c.constStr(0)] = Tuple{c.Args[1], c.Args[2], c.Args[3]}
 		return c.Return(nil)
 	}
+	// vfSockStale(addr): a socket file left behind by a killed process (nobody listens)
+	e.Intr["harness.vfSockStale"] = func(c *Call) []*State {
+		c.St.Ghost["sock:"+c.constStr(0)] = Tuple{False, False, StrC(""), True}
+		return c.Return(nil)
+	}
 	e.Intr["harness.vfNative"] = func(c *Call) []*State { return c.Return(False) }
 	e.Intr["harness.vfSetUnwind"] = func(c *Call) []*State { return c.Return(nil) }
 	e.Intr["harness.vfGhostSet"] = func(c *Call) []*State {
